@@ -12,6 +12,31 @@ NOTE_COMMON = ("Trusted base: go/packages + go/types type-check of /repo's worki
 
 # id -> (technique, level text, level note, design ref)
 CLAIMS = {
+    "C02": (
+        "CFG must-pass-through within the compaction loop (fold dominates every removal per iteration, horizon edge), reaching-definition check of the index passed to Marshal / lastSnapshotState / robustSnapshot after the last fold, dominance chains in Apply and Restore, writer/reader agreement of the snapshot stream container, def-use slice of the horizon",
+        "Partial: decides six structural necessary conditions of compaction (fold-before-drop for exactly the folded entry and only below the horizon; state filed under an index defined after the last fold; "
+        "persist-before-apply with fatal store errors; wipe/recreate/publish before decoding, state record loaded and filed, other records stored and applied; Persist/decodeProtobuf container agreement; horizon = start - (expiration + sweep interval)). "
+        "Does NOT decide that the state after arbitrary Apply/Snapshot/Restore schedules equals plain replay (a history property).",
+        NOTE_COMMON,
+        "DESIGN.md section 3, C02"),
+    "C16": (
+        "dominance chain parse -> compare -> propose(+1) -> install over the CFGs of handlePostConfig / applyConfig / the Config arm, def-use of the tee'd body and the revision, who-writes closure over IRCServer.Config (field chains, address-of, map aliases), codec coverage of config.Network",
+        "Partial: decides that only a parsed, current-revision update is proposed (as revision+1, byte-identical body), that the state machine installs it only on the nil-error edge and then sets the entry's revision under ConfigMu, "
+        "that the configuration has no other writer than constructor / Config arm / snapshot load / GLINE-inside-the-state-machine, and that every configuration field is in the snapshot. Replica agreement under concurrent posts and TOML semantics are not decided.",
+        NOTE_COMMON,
+        "DESIGN.md section 3, C16"),
+    "C17": (
+        "edge dominance of the lastProcessed comparison over the two error returns, post-dominance of SetLastProcessed/MaybeDeleteSession after ProcessMessage, status-code mapping by facts at http.Error sites, guard facts at the expiry proposal, who-writes of Session.deleted, must-pass clean-up in deleteSessionLocked",
+        "Partial: decides the guard shape of the two look-up errors, the API's error-to-status mapping (never 404 for not-yet-seen on a follower), the expiry sweep's filter (Reply == 0, Since(LastActivity) > SessionExpiration, leader only), "
+        "that ending a session always frees nick and memberships and that only marked sessions leave the table, and that a closed session is sent only ERROR/KILL. Which answer a lagging follower gives for a concrete id depends on the applied prefix and is not decided.",
+        NOTE_COMMON,
+        "DESIGN.md section 3, C17"),
+    "C19": (
+        "CFG must-pass-through in main (every path to raft.NewRaft / joinMaster passes a successful time check or the explicit bypass), facts at the nil returns of synchronizedWithNetwork, constant-object identity of the threshold, def-use slice and expression shape of worstCaseDrift, statement order in getServerTime",
+        "Partial: decides that the check is on every way in and fatal when it fails, that only the flag bypasses it, that silent peers are filtered (not trusted), that the refusing comparison is drift >= ElectionTimeout with raft's timeouts being that same constant, "
+        "and that the bound is |Result-Start| + (End-Start) with Start/End bracketing the request. The arithmetic soundness of that bound for all delays is a numeric fact outside this technique and is not decided.",
+        NOTE_COMMON,
+        "DESIGN.md section 3, C19"),
     "C05": (
         "CFG path classification of the HTTP write handlers (every return after a proposal passes the nil-error edge of the commit call, an error answer or the leader hand-off), dominance in applyMessageWait, def-use of raft.NewRaft's store arguments",
         "Partial: decides the 'acknowledge only after commit' clause for every write handler and every path, the 'commit = raft future ok and FSM response not an error' clause, "
